@@ -103,4 +103,64 @@ SubWrongFoldSign ==
       f3 == d3 - e2            e3 == Bw(f3)   g3 == f3 % B
       h0 == (g0 + e3 * F) % B
   IN (Val(h0, g1, g2, g3) - (A - Bv)) % Q = 0
+\* set_mul2: extract the top 2 bits, shift left by 1 (clearing them), add them back times MQ
+Mul2Ok ==
+  LET tt == a3 \div 4611686018427387904
+      d0 == (a0 * 2) % B
+      d1 == (a0 \div 9223372036854775808) + ((a1 * 2) % B)
+      d2 == (a1 \div 9223372036854775808) + ((a2 * 2) % B)
+      d3 == (a2 \div 9223372036854775808) + ((a3 * 2) % 9223372036854775808)
+      s0 == d0 + tt * MQ   c0 == s0 \div B   g0 == s0 % B
+      s1 == d1 + c0        c1 == s1 \div B   g1 == s1 % B
+      s2 == d2 + c1        c2 == s2 \div B   g2 == s2 % B
+      g3 == (d3 + c2) % B
+  IN (Val(g0, g1, g2, g3) - 2 * A) % Q = 0
+\* set_mul4: extract the top 3 bits, shift left by 2 (clearing them), add them back times MQ
+Mul4Ok ==
+  LET tt == a3 \div 2305843009213693952
+      d0 == (a0 * 4) % B
+      d1 == (a0 \div 4611686018427387904) + ((a1 * 4) % B)
+      d2 == (a1 \div 4611686018427387904) + ((a2 * 4) % B)
+      d3 == (a2 \div 4611686018427387904) + ((a3 * 4) % 9223372036854775808)
+      s0 == d0 + tt * MQ   c0 == s0 \div B   g0 == s0 % B
+      s1 == d1 + c0        c1 == s1 \div B   g1 == s1 % B
+      s2 == d2 + c1        c2 == s2 \div B   g2 == s2 % B
+      g3 == (d3 + c2) % B
+  IN (Val(g0, g1, g2, g3) - 4 * A) % Q = 0
+\* set_mul8: extract the top 4 bits, shift left by 3 (clearing them), add them back times MQ
+Mul8Ok ==
+  LET tt == a3 \div 1152921504606846976
+      d0 == (a0 * 8) % B
+      d1 == (a0 \div 2305843009213693952) + ((a1 * 8) % B)
+      d2 == (a1 \div 2305843009213693952) + ((a2 * 8) % B)
+      d3 == (a2 \div 2305843009213693952) + ((a3 * 8) % 9223372036854775808)
+      s0 == d0 + tt * MQ   c0 == s0 \div B   g0 == s0 % B
+      s1 == d1 + c0        c1 == s1 \div B   g1 == s1 % B
+      s2 == d2 + c1        c2 == s2 \div B   g2 == s2 % B
+      g3 == (d3 + c2) % B
+  IN (Val(g0, g1, g2, g3) - 8 * A) % Q = 0
+\* set_mul16: extract the top 5 bits, shift left by 4 (clearing them), add them back times MQ
+Mul16Ok ==
+  LET tt == a3 \div 576460752303423488
+      d0 == (a0 * 16) % B
+      d1 == (a0 \div 1152921504606846976) + ((a1 * 16) % B)
+      d2 == (a1 \div 1152921504606846976) + ((a2 * 16) % B)
+      d3 == (a2 \div 1152921504606846976) + ((a3 * 16) % 9223372036854775808)
+      s0 == d0 + tt * MQ   c0 == s0 \div B   g0 == s0 % B
+      s1 == d1 + c0        c1 == s1 \div B   g1 == s1 % B
+      s2 == d2 + c1        c2 == s2 \div B   g2 == s2 % B
+      g3 == (d3 + c2) % B
+  IN (Val(g0, g1, g2, g3) - 16 * A) % Q = 0
+\* set_mul32: extract the top 6 bits, shift left by 5 (clearing them), add them back times MQ
+Mul32Ok ==
+  LET tt == a3 \div 288230376151711744
+      d0 == (a0 * 32) % B
+      d1 == (a0 \div 576460752303423488) + ((a1 * 32) % B)
+      d2 == (a1 \div 576460752303423488) + ((a2 * 32) % B)
+      d3 == (a2 \div 576460752303423488) + ((a3 * 32) % 9223372036854775808)
+      s0 == d0 + tt * MQ   c0 == s0 \div B   g0 == s0 % B
+      s1 == d1 + c0        c1 == s1 \div B   g1 == s1 % B
+      s2 == d2 + c1        c2 == s2 \div B   g2 == s2 % B
+      g3 == (d3 + c2) % B
+  IN (Val(g0, g1, g2, g3) - 32 * A) % Q = 0
 =============================================================================
